@@ -316,8 +316,7 @@ Proof.
     + apply send_out in ES. destruct ES as [[-> ->] | [Hn ->]].
       * cbn. exists []. cbn. rewrite app_nil_r. repeat split; auto; congruence.
       * assert (En : (n =? 0) = false) by lia. rewrite En. cbv beta iota zeta.
-        specialize (IH st c' (skipn (Z.to_nat n) (x :: s)) (tl rs)
-                       (tr ++ [(kind st, firstn (Z.to_nat n) (x :: s))])).
+        match goal with |- context [sendall fuel st c' ?a ?b ?d] => specialize (IH st c' a b d) end.
         cbn zeta in IH. destruct IH as (tr2 & H1 & H2 & H3 & H4 & H5).
         exists ((kind st, firstn (Z.to_nat n) (x :: s)) :: tr2).
         split; [rewrite H1, <- app_assoc; reflexivity|].
@@ -339,8 +338,9 @@ Lemma total fuel st c s rs :
   (f_out f <> Done -> f_rest f <> []).
 Proof.
   cbn zeta. destruct (sendall_conserve fuel st c s rs []) as (tr2 & H1 & H2 & H3 & H4 & H5).
-  cbn [app] in H1. rewrite H1. repeat split; auto.
-  intros Hd. specialize (H4 Hd). rewrite H4, app_nil_r in H2. exact H2.
+  cbn [app] in H1. rewrite H1.
+  split; [exact H2|]. split; [exact H3|]. split; [|exact H5].
+  intros Hd. specialize (H4 Hd). split; [|exact H4]. rewrite H4, app_nil_r in H2. exact H2.
 Qed.
 
 (* termination: len(data) iterations always suffice, and every emitted chunk is non-empty *)
@@ -468,5 +468,5 @@ Proof.
   - reflexivity.
   - cbn [hd]. unfold send. cbn [fst snd apply_evs fold_left]. rewrite Hc.
     unfold wait_for_send_window, dead. rewrite Hc, He. cbn [orb Z.eqb skipn Z.to_nat tl].
-    apply IH; auto. discriminate.
+    apply IH; auto; discriminate.
 Qed.
